@@ -434,5 +434,130 @@ func init() {
 		}
 		udp("Client", "internal/client/upstream/packet.go", "Packet", "ConnectPacket")
 		udp("Server", "internal/server/packet_server.go", "PacketServer", "StartupPacket")
+
+		// ---- 6. is the *tls.Config handed out by GetTlsConfig a new object on every call?
+		// Every upstream kind writes into the object it gets (ServerName, InsecureSkipVerify), so the
+		// per-attempt theorems hold for a history of attempts only if nothing is shared between calls.
+		// Recognised: (a) every non-nil value Config.GetTlsConfig returns is a new object
+		// (&tls.Config{…}, new(tls.Config), x.Clone()) or an identifier bound, in that function and
+		// nowhere re-bound, to one; (b) the Client/Server wrappers return what m.Config.GetTlsConfig()
+		// gave them.  (A cache that hands out clones is therefore still "fresh".)
+		isFresh := func(e ast.Expr) bool {
+			switch x := e.(type) {
+			case *ast.UnaryExpr:
+				if cl, ok := x.X.(*ast.CompositeLit); ok && x.Op == token.AND {
+					return c05src(cl.Type) == "tls.Config"
+				}
+			case *ast.CallExpr:
+				fn := c05src(x.Fun)
+				if fn == "new" && len(x.Args) == 1 && c05src(x.Args[0]) == "tls.Config" {
+					return true
+				}
+				return strings.HasSuffix(fn, ".Clone") && len(x.Args) == 0
+			}
+			return false
+		}
+		// returned identifiers of fd (named results for bare returns); ok=false when something else is returned
+		returned := func(fd *ast.FuncDecl) (map[string]bool, bool) {
+			ids := map[string]bool{}
+			ok := true
+			direct := 0
+			named := ""
+			if fd.Type.Results != nil && len(fd.Type.Results.List) > 0 && len(fd.Type.Results.List[0].Names) > 0 {
+				named = fd.Type.Results.List[0].Names[0].Name
+			}
+			ast.Inspect(fd.Body, func(x ast.Node) bool {
+				if _, isLit := x.(*ast.FuncLit); isLit {
+					return false
+				}
+				if rs, isRet := x.(*ast.ReturnStmt); isRet {
+					if len(rs.Results) == 0 {
+						if named == "" {
+							ok = false
+						} else {
+							ids[named] = true
+						}
+					} else if id, isId := rs.Results[0].(*ast.Ident); isId {
+						if id.Name != "nil" {
+							ids[id.Name] = true
+						}
+					} else if isFresh(rs.Results[0]) {
+						direct++
+					} else {
+						ok = false
+					}
+				}
+				return true
+			})
+			return ids, ok && len(ids)+direct > 0
+		}
+		// every binding of one of ids in fd satisfies good
+		boundOnlyBy := func(fd *ast.FuncDecl, ids map[string]bool, good func(ast.Expr) bool) (bool, []string) {
+			ok := true
+			n := 0
+			var how []string
+			c05walk(fd.Body, func(as *ast.AssignStmt, g []string) {
+				for i, l := range as.Lhs {
+					id, isId := l.(*ast.Ident)
+					if !isId || !ids[id.Name] {
+						continue
+					}
+					n++
+					var rhs ast.Expr
+					if len(as.Rhs) == len(as.Lhs) {
+						rhs = as.Rhs[i]
+					} else if len(as.Rhs) == 1 && i == 0 {
+						rhs = as.Rhs[0]
+					}
+					if rhs == nil || !good(rhs) {
+						ok = false
+					}
+					if rhs != nil {
+						how = append(how, c05src(rhs))
+					}
+				}
+			})
+			ast.Inspect(fd.Body, func(x ast.Node) bool { // `var conf = …` / `var conf *tls.Config`
+				if vs, isVs := x.(*ast.ValueSpec); isVs {
+					for i, nm := range vs.Names {
+						if ids[nm.Name] && i < len(vs.Values) {
+							n++
+							how = append(how, c05src(vs.Values[i]))
+							if !good(vs.Values[i]) {
+								ok = false
+							}
+						}
+					}
+				}
+				return true
+			})
+			return ok && (n > 0 || len(ids) == 0), how
+		}
+		freshBase := false
+		origin := []string{}
+		if gd := findFunc(certF, "Config", "GetTlsConfig"); gd == nil || gd.Body == nil {
+			fail("C05: Config.GetTlsConfig not found")
+		} else if ids, ok := returned(gd); ok {
+			freshBase, origin = boundOnlyBy(gd, ids, isFresh)
+		}
+		wrappers := true
+		for _, sn := range []string{"ClientConfig", "ServerConfig"} {
+			wd := findFunc(certF, sn, "GetTlsConfig")
+			if wd == nil || wd.Body == nil {
+				fail("C05: %s.GetTlsConfig not found", sn)
+				wrappers = false
+				continue
+			}
+			ids, ok := returned(wd)
+			if !ok {
+				wrappers = false
+				continue
+			}
+			delete(ids, "err")
+			okb, _ := boundOnlyBy(wd, ids, func(e ast.Expr) bool { return c05src(e) == "m.Config.GetTlsConfig()" })
+			wrappers = wrappers && okb
+		}
+		fmt.Fprintf(b, "/-- what the value returned by Config.GetTlsConfig is bound to -/\ndef getTlsConfigResultOrigin : List String := %s\n", leanStrList05(origin))
+		fmt.Fprintf(b, "/-- true iff every GetTlsConfig call hands out a new *tls.Config (new object in Config.GetTlsConfig, passed on by the Client/Server wrappers) -/\ndef getTlsConfigFreshPerCall : Bool := %v\n\n", freshBase && wrappers)
 	})
 }
